@@ -455,6 +455,7 @@ pub fn run(ctx: &Ctx) -> ! {
     //    diagnostic group is minimised (panics and rejections in-process, the rest in shared build
     //    rounds); the signature shape is the feature set of the minimal specification
     let mut min_rounds = 0;
+    let mut sig_counts: BTreeMap<String, u64> = BTreeMap::new();
     let mut minimal: BTreeMap<(u8, String), Spec> = BTreeMap::new();
     let mut build_items: Vec<((u8, String), (Spec, Target))> = vec![];
     for ((class, key), (s, _, _)) in &groups {
@@ -484,6 +485,7 @@ pub fn run(ctx: &Ctx) -> ! {
             1 => (format!("C41:rejects-valid:{shape}"), format!("compile_idl returned Err for a valid specification: {}", dump::trunc(msg, 300))),
             _ => (format!("C41:does-not-compile:{shape}"), format!("the generated Rust does not compile against dust_dds: {}", dump::trunc(msg, 300))),
         };
+        sig_counts.insert(sig.clone(), *count);
         if known.matches(&sig) {
             *report.stats.excluded_known.entry(sig).or_insert(0) += count;
         } else {
@@ -499,6 +501,7 @@ pub fn run(ctx: &Ctx) -> ! {
     // 2. structural findings and compiler panics: signature is known up front
     let mut unknown: Vec<(String, Spec, String)> = vec![];
     for (sig, (spec, what, count)) in by_sig {
+        sig_counts.insert(sig.clone(), count);
         if known.matches(&sig) {
             *report.stats.excluded_known.entry(sig).or_insert(0) += count;
         } else {
@@ -533,6 +536,7 @@ pub fn run(ctx: &Ctx) -> ! {
         }
     }
     report.stats.extra.insert("minimisation_rounds".into(), json!(min_rounds));
+    report.stats.extra.insert("specs_per_signature".into(), json!(sig_counts));
     let floor = ctx.pick(75, 900);
     vcore::finish(ctx, Meta { rule: RULE, assumptions: ASSUMPTIONS, nontrivial_floor: floor }, report);
 }
